@@ -496,6 +496,8 @@ class Parser:
                     raise ParseError(msg)
             if self.__expected_brackets:
                 self.__set_expected(self.__expected_brackets[-1][0])
+            elif self.__expected is None and self.__curcommand is not None:
+                self.__set_expected("semicolon")
             if self.__expected is not None:
                 raise ParseError(
                     "end of script reached while %s expected"
